@@ -42,10 +42,20 @@ func (d *Document) AddPage(page *Page) {
 
 // GetPage returns a page by its 1-indexed page number, or nil if out of range.
 func (d *Document) GetPage(number int) *Page {
-	if number < 1 || number > len(d.Pages) {
-		return nil
+	// Pages keep the number of the source page they were extracted from, which
+	// differs from their position when only some pages were selected.
+	for _, page := range d.Pages {
+		if page != nil && page.Number == number {
+			return page
+		}
 	}
-	return d.Pages[number-1]
+	// Pages that carry no number are addressed by position.
+	if number >= 1 && number <= len(d.Pages) {
+		if page := d.Pages[number-1]; page == nil || page.Number == 0 {
+			return page
+		}
+	}
+	return nil
 }
 
 // PageCount returns the total number of pages in the document.
